@@ -447,3 +447,35 @@ package participle
 //@   requires @assumed p.lex != nil
 //@   before call Definition.Lex#1: assert arg1 == filename && arg2 == r [C15]
 //@   before call lexer.ConsumeAll#1: assert arg0 == lex [C15]
+
+// ---------------------------------------------------------------------------------------------
+// map.go (C18)
+// ---------------------------------------------------------------------------------------------
+
+// The meaning of a quoted Go string body, transcribed from strconv.Unquote's loop: each step decodes one
+// character with strconv.UnquoteChar and appends it as a single byte unless it is a multi-byte rune.
+//@ spec fn ucValue(s string, q byte) rune = uf("fn_strconv.UnquoteChar_r0", "Int", s, q)
+//@ spec fn ucMulti(s string, q byte) bool = uf("fn_strconv.UnquoteChar_r1", "Bool", s, q)
+//@ spec fn ucTail(s string, q byte) string = uf("fn_strconv.UnquoteChar_r2", "Str", s, q)
+//@ spec fn encChar(c rune, multibyte bool) string = ite(multibyte, uf("rune2str", "Str", c), uf("byte2str", "Str", c))
+//@ spec rec unq(s string, q byte) string = ite(s == "", "", encChar(ucValue(s, q), ucMulti(s, q)) + unq(ucTail(s, q), q))
+//@ lemma catAssoc(a string, b string, c string)
+//@   axiom
+//@   ensures (a + b) + c == a + (b + c)
+//@ lemma catEmpty(a string)
+//@   axiom
+//@   ensures a + "" == a && "" + a == a
+
+//@ global strconv.ErrSyntax != nil
+
+//@ func unquote [C18 C06]
+//@   ensures result1 == nil ==> len(s) >= 2
+//@   ensures result1 == nil && s[0] == '`' ==> result0 == s[1:len(s)-1]
+//@   ensures result1 == nil && s[0] != '`' ==> result0 == unq(s[1:len(s)-1], s[0])
+//@   ensures len(s) < 2 ==> result1 != nil
+//@   loop 1 invariant len(old(s)) >= 2 && quote == old(s)[0] && quote != '`'
+//@   loop 1 invariant out + unq(s, quote) == unq(old(s)[1:len(old(s))-1], quote)
+//@   loop 1 decreases len(s)
+//@   use catAssoc(out, encChar(ucValue(s, quote), ucMulti(s, quote)), unq(ucTail(s, quote), quote)) at loop 1
+//@   use catEmpty(out) at loop 1
+//@   use catEmpty(unq(old(s)[1:len(old(s))-1], old(s)[0])) at loop 1 entry
